@@ -260,3 +260,55 @@ Example proxy_nonvacuous :
   Px.ppc_ s = Px.PSend /\ Px.spc_ s 1 = Px.SDone /\ Px.fd s 1 = true /\ Px.p_idx s = Some 2 /\
   exists r, Px.p_proxyResp s = Some r /\ Px.m_body r = Px.FAIL.
 Proof. vm_compute. repeat split; try reflexivity. eexists. split; reflexivity. Qed.
+
+(* ================================================================== shopcart *)
+(* the system the spec instantiates: Node = ANodeBench with crdt[_] via AWORSet, and the merge process UpdateCRDT *)
+From PGV Require C16.Shopcart C16.ShopcartProofs.
+Module Sc := PGV.C16.Shopcart.
+Module ScP := PGV.C16.ShopcartProofs.
+
+(* the spec's StrongConvergence: replicas with equal knowledge (c[i] = c[j]) have equal CRDT state, for every
+   NumNodes, BenchNumRounds, ElemSet size and every interleaving of node labels and merges *)
+Theorem shopcart_strong_convergence : forall g evs i j,
+  (forall e, Sc.know (Sc.exec g evs) i e = Sc.know (Sc.exec g evs) j e) ->
+  forall e n, Sc.addm (Sc.exec g evs) i e n = Sc.addm (Sc.exec g evs) j e n /\
+              Sc.remm (Sc.exec g evs) i e n = Sc.remm (Sc.exec g evs) j e n.
+Proof. intros g evs. exact (ScP.strong_convergence_lemma g _ (ScP.exec_reachable g evs)). Qed.
+Print Assumptions shopcart_strong_convergence.
+
+(* the spec's invariant QueryOK: equal CRDT states give equal query results (in every state) *)
+Theorem shopcart_query_ok : forall g s i j,
+  (forall e n, Sc.addm s i e n = Sc.addm s j e n /\ Sc.remm s i e n = Sc.remm s j e n) -> Sc.query g s i = Sc.query g s j.
+Proof. exact ScP.query_ok_lemma. Qed.
+Print Assumptions shopcart_query_ok.
+
+(* replicas with equal knowledge read equal values *)
+Theorem shopcart_equal_knowledge_equal_query : forall g evs i j,
+  (forall e, Sc.know (Sc.exec g evs) i e = Sc.know (Sc.exec g evs) j e) ->
+  Sc.query g (Sc.exec g evs) i = Sc.query g (Sc.exec g evs) j.
+Proof. intros g evs. exact (ScP.equal_knowledge_equal_query_lemma g _ (ScP.exec_reachable g evs)). Qed.
+Print Assumptions shopcart_equal_knowledge_equal_query.
+
+(* counters never decrease: every component of every add-clock of every replica, along every continuation *)
+Theorem shopcart_monotone : forall g evs1 evs2 i e n,
+  Sc.addm (Sc.exec g evs1) i e n <= Sc.addm (Sc.run g (Sc.exec g evs1) evs2) i e n.
+Proof. intros g evs1 evs2. exact (ScP.monotone_lemma g evs2 _ (ScP.exec_reachable g evs1)). Qed.
+Print Assumptions shopcart_monotone.
+
+(* the state is a function of the knowledge, and the remove maps stay Null (nobody removes) *)
+Theorem shopcart_invariant : forall g evs, ScP.Inv g (Sc.exec g evs).
+Proof. intros g evs. exact (ScP.inv_reachable g _ (ScP.exec_reachable g evs)). Qed.
+Print Assumptions shopcart_invariant.
+
+(* no ill-typed step and no failing assertion when ElemSet covers the elements the nodes add *)
+Theorem shopcart_safe : forall g evs ev, Sc.E g >= Sc.N g * Sc.R g ->
+  Sc.step g (Sc.exec g evs) ev <> Sc.TypeError /\ Sc.step g (Sc.exec g evs) ev <> Sc.AssertFail.
+Proof. intros g evs ev H. exact (ScP.safe_lemma g _ ev (ScP.exec_reachable g evs) H). Qed.
+Print Assumptions shopcart_safe.
+
+Example shopcart_nonvacuous :
+  let g := Sc.mkCfg 2 1 2 in
+  let s := Sc.exec g [Sc.ENode 1; Sc.ENode 1; Sc.ENode 2; Sc.ENode 2; Sc.EMerge 1 (Some 2)] in
+  Sc.query g s 1 = [0; 1] /\ Sc.query g s 2 = [0; 1] /\ Sc.know s 2 0 = true /\
+  Sc.out_code (Sc.step g s (Sc.ENode 1)) = 0 /\ Sc.out_code (Sc.step g (Sc.exec g [Sc.ENode 1; Sc.ENode 1]) (Sc.ENode 1)) = 1.
+Proof. vm_compute. repeat split; reflexivity. Qed.
